@@ -2,7 +2,7 @@
    Statements only, one group per allocator family; the models are tied to the code by replay of
    implementation logs (see the evidence file for what was replayed on this run). *)
 From Coq Require Import ZArith List Bool.
-From FM Require Import FixedStack SmallCarve PoolSpec SlotProofs ListLib PoolSpecProofs Stack StackProofs Iteration IterationProofs InvalidRelease SmallList SmallListProofs.
+From FM Require Import FixedStack SmallCarve PoolSpec SlotProofs ListLib PoolSpecProofs Stack StackProofs Iteration IterationProofs InvalidRelease SmallList SmallListProofs Stack Arena UnorderedList UnorderedRefine PoolExec PoolExecProofs.
 Import ListNotations.
 Local Open Scope Z_scope.
 
@@ -103,6 +103,35 @@ Theorem C01_small_list_nodes_inside_inserted_memory : forall l mem size, SmInv l
                forall a, In a new -> mem <= a /\ a + sm_ns l <= mem + size).
 Proof. exact sm_insert_spec. Qed.
 Print Assumptions C01_small_list_nodes_inside_inserted_memory.
+
+(* ----- Exec refines Spec, pool level: memory_pool<node_pool> over an uncached arena (PoolExec.v, built from the Exec models of
+   the arena and of the intrusive list) ----- *)
+(* one operation: from related states, with any upstream answer that is a fresh aligned block with room for a node, the Spec
+   accepts the events and the result the Exec pool produces, and the states are related again *)
+Theorem C01_pool_exec_step_refines_spec : forall s sp o s' r evs, PR s sp -> 0 < up_ns s < 2^64 ->
+  (match o with PAllocNode (Some addr) => WB sp addr (ar_next (up_ar s)) /\ up_ns s <= ar_next (up_ar s) - hdr | _ => True end) ->
+  up_step s o = Some (s', r, evs) -> exists sp', acc_op sp (spec_op_of (up_ns s) o) evs r = Some sp' /\ PR s' sp'.
+Proof. exact step_refines_pool. Qed.
+Print Assumptions C01_pool_exec_step_refines_spec.
+
+(* every history of the Exec pool over an upstream source that behaves is a history the Spec accepts: the theorems above about
+   accepted histories (disjoint live nodes inside held blocks, and C02..C04, C18) hold for all of them *)
+Theorem C01_pool_exec_refines_spec : forall os s sp s' tr, PR s sp -> 0 < up_ns s < 2^64 -> answers_ok s sp os ->
+  up_run s os = Some (s', tr) -> exists sp', PoolSpecProofs.run sp tr = Some sp' /\ PR s' sp'.
+Proof. exact pool_refines_spec. Qed.
+Print Assumptions C01_pool_exec_refines_spec.
+
+Theorem C01_pool_exec_initial_state_related : forall k ns bs, 0 < ns -> PR (up_init k ns bs) (mk_ast [ul ns [] 0]).
+Proof. exact init_PR. Qed.
+Print Assumptions C01_pool_exec_initial_state_related.
+
+Example C01_pool_exec_nonvacuous :
+  match up_run (up_init AGrow 16 176) [PAllocNode (Some 65536); PAllocNode None; PTryAllocNode; PDeallocNode 65552; PAllocNode None] with
+  | Some (s, tr) => ug_live (up_g s) = [(65552, 1); (65584, 1); (65568, 1)] /\ length tr = 5%nat /\
+                    PoolSpecProofs.run (mk_ast [ul 16 [] 0]) tr <> None
+  | None => False
+  end.
+Proof. vm_compute. repeat split; discriminate. Qed.
 
 Example C01_small_list_nonvacuous :
   match grun {| g_l := sm_empty 8; g_live := [] |} [GIns 4096 80; GIns 0 64; GAlloc; GAlloc; GAlloc; GAlloc; GAlloc; GDealloc 4128; GAlloc; GIns 8192 3000; GAlloc] with
